@@ -31,7 +31,7 @@ RULE = (
   "and qacc != qacc_smooth; distinct = canonical hash of the spec"
 )
 BOUNDS = {
-  "quick": "feature sets k<=1 (all options) on all 5 trees, k=2 (core options) on one tree each (cycling), joint pattern alternating; 7 dedicated scenes x 2 variants; size scenes: 2 kinds x nv in {32,33,50,51,60,61} x the seed's variant, warmstart modes {disabled, bad}",
+  "quick": "feature sets k<=1 (all options) on all 5 trees, k=2 (core options) on one tree each (cycling), joint pattern alternating; 7 dedicated scenes x 2 variants; size scenes: {row, arms} x nv in {50,51,60,61} and arms x nv in {32,33}, the seed's variant, warmstart modes {disabled, bad}",
   "thorough": "k<=1 on all trees x both patterns, k=2 (all options) on all trees (pattern alternating), k=3 (core) cycling trees; 7 dedicated scenes x 4 variants; size scenes: 2 kinds x nv in {32,33,47,48,49,50,51,60,61,65} x 2 variants",
 }
 ASSUMPTIONS = [
@@ -103,13 +103,11 @@ def scenarios(tier, seed):
   out.sort(key=lambda s: (0 if s["fam"] == "tree" else 1, len(s.get("feats", []))))
   # model SIZE: one model of an exact nv on each side of every nv-dependent dispatch of the solver (mc/refs/sizescenes.py),
   # in both structural kinds; one scenario per (solver, cone) so that no single scenario dominates the wall time.
-  # quick: the sizes around the kernel-dispatch thresholds, variant of the seed, warmstart {disabled, bad} (the zero warmstart
-  # starts next to the disabled one); thorough: all sizes, two variants, all three warmstart modes
+  # quick: the sizes around the kernel-dispatch thresholds (around 32|33 only the arms kind), variant of the seed, warmstart
+  # {disabled, bad} (the zero warmstart starts next to the disabled one); thorough: all sizes, two variants, all three modes
   ws = ["off", "bad"] if tier == "quick" else ["off", "zero", "bad"]
-  for nv, _why, in_quick in ss.SIZES:
-    if tier == "quick" and not in_quick:
-      continue
-    for kind in ss.KINDS:
+  for nv, _why, quick_kinds in ss.SIZES:
+    for kind in ss.KINDS if tier != "quick" else quick_kinds:
       for dv in range(1 if tier == "quick" else 2):
         for solver in (2, 1):
           for cone in (0, 1):
